@@ -243,25 +243,59 @@ fn tok_body<const N: usize>() {
                 assert!(ca == a);
                 assert!(p.pos == pos + n);
                 kani::cover!(k == K_DAYNAME && a == 3);
-                kani::cover!(k == K_AMPM && a == 1);
+                kani::cover!((k == K_AMPM && a == 1) || N < 4);
                 kani::cover!(k == K_BLANK && a as usize == N);
                 pos += n;
             }
         }
         steps += 1;
     }
-    // the whole-picture verdict of the public constructor agrees
+    kani::cover!(accepted && len == N);
+    kani::cover!(!accepted);
+}
+
+//@ unit c19_try_new prop=C19,C03 unwind=6 mem=6 timeout=1500 stubs=crate::util::try_format=>crate::verif_support::stub_try_format bound="every byte string of length <= 3: Formatter::try_new succeeds exactly when every tokenizer step yields a token (InvalidFormat otherwise), and then holds exactly those tokens"
+fn c19_try_new() {
+    let buf: [u8; 3] = kani::any();
+    let len: usize = kani::any();
+    kani::assume(len <= 3);
+    let s = &buf[..len];
+    let mut p = FormatParser::new(s);
+    let mut count = 0usize;
+    let mut valid = true;
+    let mut steps = 0;
+    while steps < 4 {
+        match p.next() {
+            None => break,
+            Some(Field::Invalid) => {
+                valid = false;
+                break;
+            }
+            Some(_) => count += 1,
+        }
+        steps += 1;
+    }
     let text = unsafe { std::str::from_utf8_unchecked(s) };
-    let r = Formatter::try_new(text);
-    if accepted {
-        assert!(r.is_ok());
-        kani::cover!(len == N);
-    } else {
-        assert!(matches!(r, Err(Error::InvalidFormat(_))));
+    match Formatter::try_new(text) {
+        Ok(f) => {
+            assert!(valid && f.fields.len() == count);
+            kani::cover!(count == 3);
+            kani::cover!(count == 1 && len == 3);
+            std::mem::forget(f);
+        }
+        Err(e) => {
+            assert!(!valid && matches!(e, Error::InvalidFormat(_)));
+            std::mem::forget(e);
+        }
     }
 }
 
-//@ unit c19_tok4 prop=C19,C03 unwind=7 mem=4 timeout=900 bound="every byte string (all 256 byte values) of length <= 4: token sequence, consumed lengths, name styles and accept/reject of Formatter::try_new against the reference tokenizer"
+//@ unit c19_tok3 prop=C19,C03 q23=1 unwind=7 mem=4 timeout=900 bound="every byte string (all 256 byte values) of length <= 3: token sequence, consumed lengths and name styles against the reference tokenizer"
+fn c19_tok3() {
+    tok_body::<3>();
+}
+
+//@ unit c19_tok4 prop=C19 tier=thorough unwind=7 mem=6 timeout=3600 bound="every byte string (all 256 byte values) of length <= 4: token sequence, consumed lengths and name styles against the reference tokenizer"
 fn c19_tok4() {
     tok_body::<4>();
 }
@@ -296,13 +330,13 @@ fn c19_window() {
     }
 }
 
-//@ unit c19_blank_run prop=C19,C03 unwind=302 mem=6 timeout=1200 bound="a run of k blanks, every k in 1..=300, followed by an arbitrary non-blank byte or the end: tokenizer steps return Blank(n) with the n summing to k, no counter overflow"
+//@ unit c19_blank_run q23=1 prop=C19,C03 unwind=262 mem=6 timeout=1500 bound="a run of k blanks, every k in 1..=260, followed by an arbitrary non-blank byte or the end: tokenizer steps return Blank(n) with the n summing to k, no counter overflow"
 fn c19_blank_run() {
     let k: usize = kani::any();
     let term: u8 = kani::any();
     let has_term: bool = kani::any();
-    kani::assume(k >= 1 && k <= 300 && term != b' ');
-    let mut buf = [b' '; 301];
+    kani::assume(k >= 1 && k <= 260 && term != b' ');
+    let mut buf = [b' '; 261];
     let len = if has_term {
         buf[k] = term;
         k + 1
@@ -327,10 +361,10 @@ fn c19_blank_run() {
     }
     assert!(sum == k);
     kani::cover!(k == 256);
-    kani::cover!(k == 300 && has_term);
+    kani::cover!(k == 260 && has_term);
 }
 
-//@ unit c19_blank_format prop=C19,C04,C03 unwind=258 mem=6 timeout=1200 bound="Formatter::format of a Blank(n) field, every n: u8, writes exactly n blanks"
+//@ unit c19_blank_format q23=1 prop=C19,C04,C03 unwind=258 mem=6 timeout=1200 bound="Formatter::format of a Blank(n) field, every n: u8, writes exactly n blanks"
 fn c19_blank_format() {
     let n: u8 = kani::any();
     let mut fields = StackVec::new();
@@ -352,7 +386,7 @@ fn c19_blank_format() {
     std::mem::forget(fmt);
 }
 
-//@ unit c19_max_fields prop=C19,C03 unwind=42 mem=6 timeout=1200 bound="pictures of c one-byte tokens, every c in 0..=40 (and c two-byte tokens MM.. is covered by the same counter): accepted iff c <= 36"
+//@ unit c19_max_fields q23=1 prop=C19,C03 unwind=42 mem=6 timeout=1200 bound="pictures of c one-byte tokens, every c in 0..=40 (and c two-byte tokens MM.. is covered by the same counter): accepted iff c <= 36"
 fn c19_max_fields() {
     let c: usize = kani::any();
     kani::assume(c <= 40);
